@@ -205,9 +205,13 @@ type step struct {
 	ModeText  string `json:"mode_text,omitempty"` // literal spelling of the mode parameter
 	Malformed string `json:"malformed,omitempty"` // kind of malformed Transport
 	SDP       string `json:"sdp,omitempty"`
-	CSeq      string `json:"cseq,omitempty"` // "" = next automatic
+	CSeq      string `json:"cseq,omitempty"`          // "" = next automatic
+	Deco      string `json:"uri_octets,omitempty"`    // percent-encoded octets that are dangerous once decoded
+	DecoAt    string `json:"uri_octets_at,omitempty"` // segment (extra path segment) | control (behind SETUP's control) | query
+	HdrDeco   string `json:"header_octets,omitempty"` // range | session | transport | require: such octets in a header value the server may echo
 
-	Path string `json:"-"` // resolved canonical path
+	Path string `json:"-"` // resolved path as the model sees it
+	base string // resolved path of PathSym (what the URL is built from)
 }
 
 type plan struct {
@@ -222,6 +226,43 @@ type plan struct {
 
 var muxKnown = map[string]bool{"OPTIONS": true, "DESCRIBE": true, "ANNOUNCE": true, "SETUP": true, "PLAY": true, "PAUSE": true,
 	"TEARDOWN": true, "GET_PARAMETER": true, "SET_PARAMETER": true, "RECORD": true, "REDIRECT": true}
+
+// percent-encoded octets that are dangerous once a server decodes them and
+// puts them into a response (legal URI syntax, RFC 2396 §2.4.1)
+var uriOctets = []string{"%0D%0A", "%0A", "%0D", "%00", "%20", "%25", "%3A", "%0D%0ACSeq:%2099", "%0D%0A%0D%0ARTSP/1.0%20200%20OK", "%0D%0A%0D%0A", "%09%7F"}
+
+// the same idea inside a header value the server may echo (Transport, Range) or
+// look at (Session, Require); raw CR / LF cannot be written there without breaking
+// the request itself, the escaped forms can
+const hdrOctets = "%0D%0ACSeq:%2099%0D%0A%0D%0A"
+
+func decorate(t *rapid.T, s *step, happy bool) {
+	if happy {
+		if s.Method != "SETUP" && s.Method != "ANNOUNCE" && rapid.IntRange(0, 7).Draw(t, "decoHappy") == 0 {
+			s.Deco, s.DecoAt = rapid.SampledFrom(uriOctets).Draw(t, "octets"), "query"
+		}
+	} else if rapid.IntRange(0, 4).Draw(t, "deco") == 0 {
+		s.Deco = rapid.SampledFrom(uriOctets).Draw(t, "octets")
+		switch s.Method {
+		case "SETUP":
+			s.DecoAt = rapid.SampledFrom([]string{"control", "control", "control", "segment", "query"}).Draw(t, "octetsAt")
+		case "ANNOUNCE":
+			s.DecoAt = "query"
+		default:
+			s.DecoAt = rapid.SampledFrom([]string{"segment", "query"}).Draw(t, "octetsAt")
+		}
+	}
+	if rapid.IntRange(0, 9).Draw(t, "hdrDeco") == 0 {
+		switch s.Method {
+		case "SETUP":
+			s.HdrDeco = rapid.SampledFrom([]string{"transport", "transport", "session", "require"}).Draw(t, "hdrOctetsIn")
+		case "PLAY", "RECORD":
+			s.HdrDeco = rapid.SampledFrom([]string{"range", "range", "session", "require"}).Draw(t, "hdrOctetsIn")
+		default:
+			s.HdrDeco = rapid.SampledFrom([]string{"session", "require"}).Draw(t, "hdrOctetsIn")
+		}
+	}
+}
 
 var malformedKinds = []string{"garbage", "noproto", "badprofile", "badinterleaved", "badport", "missing", "empty", "hugeport", "hugeport"}
 
@@ -322,7 +363,9 @@ func genPlan(t *rapid.T, transport string) *plan {
 	for len(p.Steps) < n {
 		if len(happy) > 0 && rapid.IntRange(0, 9).Draw(t, "follow") < 6 {
 			// an extra SETUP for the second track now and then
-			p.Steps = append(p.Steps, happy[0]())
+			hs := happy[0]()
+			decorate(t, &hs, true)
+			p.Steps = append(p.Steps, hs)
 			happy = happy[1:]
 			continue
 		}
@@ -363,6 +406,7 @@ func genPlan(t *rapid.T, transport string) *plan {
 		default:
 			s = step{Method: rapid.SampledFrom([]string{"FOOBAR", "play", "Describe", "REDIRECT", "X-1_2"}).Draw(t, "unknown"), PathSym: pathOr("live", "missing")}
 		}
+		decorate(t, &s, false)
 		if rapid.IntRange(0, 11).Draw(t, "oddCSeq") == 0 {
 			s.CSeq = rapid.SampledFrom([]string{"0", "4294967295", "18446744073709551616", "007", "99999"}).Draw(t, "cseq")
 		}
@@ -469,7 +513,17 @@ func (w *world) runPlan(p *plan) (out outcome, rep *report, fail *failure, err e
 	rep = &report{Plan: p}
 	pubN := atomic.AddInt64(&w.pubSeq, 1)
 	for i := range p.Steps {
-		p.Steps[i].Path = w.resolve(p.Steps[i].PathSym, pubN)
+		st := &p.Steps[i]
+		st.Path = w.resolve(st.PathSym, pubN)
+		st.base = st.Path
+		switch {
+		case st.Deco != "" && st.DecoAt == "segment":
+			// an extra path segment: whatever the octets decode to, this is another path than
+			// the one the session is about and carries no stream
+			st.Path += "/x<" + st.Deco + ">y"
+		case st.Deco != "" && st.DecoAt == "control" && st.Method == "SETUP":
+			st.Track = "no-such-track" // behind the control: no track of any description
+		}
 	}
 	pubPaths := []string{w.resolve("pub", pubN), w.resolve("pub2", pubN)}
 	wsPath := ""
@@ -639,7 +693,10 @@ func (w *world) runPlan(p *plan) (out outcome, rep *report, fail *failure, err e
 	alive := true
 	for i := range p.Steps {
 		s := &p.Steps[i]
-		url := w.s.RTSP(s.Path)
+		url := w.s.RTSP(s.base)
+		if s.Deco != "" && s.DecoAt == "segment" {
+			url += "/x" + s.Deco + "y"
+		}
 		hdr := map[string]string{}
 		var body []byte
 		switch s.Method {
@@ -654,11 +711,29 @@ func (w *world) runPlan(p *plan) (out outcome, rep *report, fail *failure, err e
 			} else {
 				url += "/streamid=0"
 			}
+			if s.Deco != "" && s.DecoAt == "control" {
+				url += s.Deco + "x"
+			}
 			if v, present := transportHeader(s, udpPort); present {
+				if s.HdrDeco == "transport" && s.Malformed == "" {
+					v += ";x-verif=" + hdrOctets
+				}
 				hdr["Transport"] = v
 			}
 		case "PLAY", "RECORD":
 			hdr["Range"] = "npt=0.000-"
+			if s.HdrDeco == "range" {
+				hdr["Range"] = "npt=0.000-;x=" + hdrOctets
+			}
+		}
+		if s.Deco != "" && s.DecoAt == "query" {
+			url += "?a=" + s.Deco
+		}
+		switch s.HdrDeco {
+		case "session":
+			hdr["Session"] = "verif" + hdrOctets
+		case "require":
+			hdr["Require"] = "x.verif" + hdrOctets
 		}
 		if s.CSeq != "" {
 			hdr["CSeq"] = s.CSeq
@@ -669,6 +744,10 @@ func (w *world) runPlan(p *plan) (out outcome, rep *report, fail *failure, err e
 		}
 		req := c.Build(s.Method, url, hdr, body)
 		x := m.expect(&w.env, s)
+		if s.Method == "SETUP" && s.Deco != "" && s.DecoAt == "query" {
+			// whether a track URL with a query still names the track is the server's business
+			x = expectation{Kind: expAny, Why: "SETUP with a query behind the track URL", apply: x.apply}
+		}
 		ex := exchange{Req: strings.SplitN(string(req), "\r\n", 2)[0], Expect: x.Kind.String()}
 		if x.Or455 {
 			ex.Expect += " or 455"
@@ -678,6 +757,9 @@ func (w *world) runPlan(p *plan) (out outcome, rep *report, fail *failure, err e
 		}
 		if s.Method == "ANNOUNCE" {
 			ex.Req += " [sdp " + s.SDP + "]"
+		}
+		if s.HdrDeco != "" {
+			ex.Req += " [octets in " + s.HdrDeco + " header]"
 		}
 		withProbe := s.Method != "TEARDOWN"
 		probeCSeq := ""
@@ -792,6 +874,9 @@ func (w *world) runPlan(p *plan) (out outcome, rep *report, fail *failure, err e
 		r := got[0]
 		ex.Status, ex.Reason = r.Status, r.Reason
 		problem, take := x.judge(r.Status)
+		if s.HdrDeco == "require" && r.Status == 551 {
+			problem, take = "", false // RFC 2326 §12.32: an unsupported Require option is answered 551
+		}
 		if problem != "" {
 			return fin(bad("status", "step %d (%s) in model state %s: %s", i, ex.Req, m, problem))
 		}
@@ -958,6 +1043,12 @@ func record(p *plan, out outcome) {
 		}
 		if s.Method == "ANNOUNCE" {
 			evid.Class("announce sdp:" + s.SDP)
+		}
+		if s.Deco != "" {
+			evid.Class("uri octets in " + s.DecoAt + " (" + methodClass(s.Method) + ")")
+		}
+		if s.HdrDeco != "" {
+			evid.Class("octets in header " + s.HdrDeco)
 		}
 	}
 	if out.reachedPlaying {
